@@ -62,9 +62,11 @@ def revisit_layout(rng, chain, coin):
 
 
 def max_heights(kw):
+    """highest ACTIVE-chain height per file (records that lose their height do not count as 'a block yet to come')"""
+    from ..datadir import ACTIVE
     mh = {}
     for p in kw["placements"]:
-        if p.indexed:
+        if p.indexed and (p.status & ~128) == ACTIVE:
             mh[p.file] = max(mh.get(p.file, -1), p.height)
     return mh
 
@@ -109,12 +111,17 @@ def case(spec):
     else:
         kw, desc, pl_index = build_layout(lrng, chain, kind, spec.get("nfiles", 4))
     kw["index_opts"] = {}
+    ncomp = 0
+    if spec["n"] % 2 == 0 and kind != "single":
+        # index records that lose their height (stale siblings sorting before the active block, failed blocks) stored as the
+        # last block of a file, header-only records: they must not keep a file open (nor get delivered)
+        ncomp = layouts.add_harmless_competitors(lrng, chain, coin, kw, count=max(3, len(kw["order"]) // 2))
     work = harness.fresh(os.path.join(spec["work"], "c%d" % spec["n"]))
     d = os.path.join(work, "d")
     xor_key = bytes(lrng.randrange(1, 256) for _ in range(8)) if spec["n"] % 3 == 0 else None   # reopened files must keep their key
     datadir.write_datadir(d, COINS[coin], xor_key=xor_key, **kw)
     binary = core.build("release")
-    v, counters, shapes = [], {"runs": 0, "xor_obfuscated_layouts": 1 if xor_key else 0}, []
+    v, counters, shapes = [], {"runs": 0, "xor_obfuscated_layouts": 1 if xor_key else 0, "losing_index_records": ncomp}, []
     nf = desc["files"]
     fclass = "1" if nf == 1 else ("2-9" if nf < 10 else ("10-99" if nf < 100 else "100+"))
     tip = chain[-1][0]
